@@ -1672,6 +1672,8 @@ func (p *Parser) evaluateSwitch(ctx context) (Statement, error) {
 
 	if switchExprValueType.IsSlice() {
 		return nil, p.atError("slices are not allowed in switch statements", exprToken)
+	} else if !switchExprValueType.IsBool() && !switchExprValueType.IsInt() && !switchExprValueType.IsString() {
+		return nil, p.expectedError("single boolean, integer or string value as switch value", exprToken)
 	}
 	beginToken := p.eat()
 
